@@ -616,7 +616,7 @@ def stream_setdist(ctx, model):
     from scico import functional
 
     rng = ctx.rng
-    for _ in range(ctx.n(12, 100)):
+    for _ in range(ctx.n(20, 120)):
         n = int(rng.integers(1, 5))
         squared = bool(rng.random() < 0.5)
         kind = "box" if rng.random() < 0.6 else "subspace"
@@ -666,6 +666,130 @@ def stream_setdist(ctx, model):
             ctx.disagree("setdist.eval", case, float(f(X)), common.b2f(got["eval"]), oracle=orc)
             continue
         _cmp_vec(ctx, "setdist.grad", case, f.grad(X), G.from_cv(got["grad"]), orc)
+
+
+def _linop_loss_build(case):
+    """the scico loss of a `linop_loss` case (operator built with scico's own constructor)"""
+    import scico.numpy as snp
+    from scico import functional, linop, loss
+
+    cplx, shape = case["cplx"], tuple(case["shape"])
+    dt = np.complex128 if cplx else np.float64
+    k = case["op"]
+    if k == "convolve":
+        h = snp.array(np.asarray(G.dec(case["h"], tuple(case["hshape"]), cplx), dtype=dt))
+        A = linop.Convolve(h=h, input_shape=shape, input_dtype=dt, mode=case["mode"])
+    elif k == "circconv":
+        h = snp.array(np.asarray(G.dec(case["h"], tuple(case["hshape"]), cplx), dtype=dt))
+        A = linop.CircularConvolve(h=h, input_shape=shape, input_dtype=dt)
+    elif k == "fd":
+        A = linop.FiniteDifference(shape, input_dtype=dt, circular=case["circular"], append=None if case["circular"] else 0)
+    else:
+        raise common.Infra(f"unknown operator kind {k}")
+    oshape = A.output_shape
+    m = int(np.prod(oshape))
+    y = snp.array(np.asarray(G.dec(case["y"], None, True)[:m].reshape(oshape), dtype=A.output_dtype))
+    if case["loss"] == "sqL2":
+        f = loss.SquaredL2Loss(y=y, A=A, scale=case["s"])
+    else:
+        inner = functional.HuberNorm(1.0, separable=True) if case["loss"] == "huber" else functional.SquaredL2Norm()
+        f = loss.Loss(y=y, A=A, f=inner, scale=case["s"])
+    if case.get("c") is not None:
+        f = case["c"] * f
+    return f, A, y
+
+
+def linop_loss_oracle(case):
+    import scico.numpy as snp
+
+    common.setup_scico()
+    f, A, _ = _linop_loss_build(case)
+    shape, cplx = tuple(case["shape"]), case["cplx"]
+    dt = np.complex128 if cplx else np.float64
+    X = snp.array(np.asarray(G.dec(case["x"], shape, cplx), dtype=dt))
+    g = np.asarray(f.grad(X))
+    rr = np.random.Generator(np.random.PCG64(23))
+    for _ in range(4):
+        d = np.asarray(G.dy(rr, shape, cplx), dtype=dt)
+        fd = fd_directional(f, X, snp.array(d))
+        ri = float(np.real(np.sum(np.conj(g) * d)))
+        if abs(fd - ri) > 1e-5 * (1 + abs(fd) + abs(float(f(X)))):
+            return {"x": case["x"], "d": G.enc(d), "re_inner_grad_d": ri, "finite_difference": fd}
+    return None
+
+
+def stream_linop_loss(ctx, model):
+    """losses composed with scico's own linear operators (Convolve, CircularConvolve, FiniteDifference): the dense
+    matrix of the operator (extracted on the basis) goes to the model; value, gradient (= 2 s A^H W (Ax - y) for the
+    squared loss) and Hessian of the real objects vs the model"""
+    import scico.numpy as snp
+
+    rng = ctx.rng
+    for _ in range(ctx.n(14, 120)):
+        opk = ["convolve", "circconv", "fd"][int(rng.integers(3))]
+        cplx = bool(rng.random() < 0.5)
+        dt = np.complex128 if cplx else np.float64
+        shape = (int(rng.integers(2, 5)),) if rng.random() < 0.5 else (int(rng.integers(2, 4)), int(rng.integers(2, 4)))
+        case = {"tag": "linop_loss", "op": opk, "cplx": cplx, "shape": list(shape), "s": G.dyscalar(rng),
+                "loss": ["sqL2", "sqL2", "huber", "gen_sqL2"][int(rng.integers(4))],
+                "c": G.dyscalar(rng) if rng.random() < 0.4 else None, "y": G.enc(G.dy(rng, (64,), True))}
+        if opk in ("convolve", "circconv"):
+            hshape = tuple(int(rng.integers(1, 3)) for _ in shape)
+            case.update(h=G.enc(G.dy(rng, hshape, cplx)), hshape=list(hshape), mode=["full", "same", "valid"][int(rng.integers(3))])
+        if opk == "fd":
+            case["circular"] = bool(rng.random() < 0.5)
+        try:
+            f, A, y = _linop_loss_build(case)
+        except Exception as e:  # noqa: BLE001
+            ctx.count(f"linop_loss:construct-failed:{type(e).__name__}")
+            continue
+        n = int(np.prod(shape))
+        cols = []
+        for j in range(n):
+            e = np.zeros(n, dtype=dt)
+            e[j] = 1.0
+            out = A(snp.array(e.reshape(shape)))
+            if hasattr(out, "arrays"):
+                cols = None
+                break
+            cols.append(np.asarray(out).ravel())
+        if cols is None:
+            ctx.count("linop_loss:block-output-skipped")
+            continue
+        Am = np.stack(cols, axis=1)
+        m = Am.shape[0]
+        if m == 0:
+            continue
+        yv = np.asarray(y).ravel()
+        x = G.dy(rng, (n,), cplx, nz=True)
+        seff = case["s"] * (case["c"] if case["c"] is not None else 1.0)
+        opr = {"kind": "matrix", "m": m, "M": G.enc(Am)}
+        if case["loss"] == "sqL2":
+            t = {"k": "sqL2Loss", "s": seff, "op": opr, "y": G.enc(yv), "w": None}
+        else:
+            t = {"k": "loss", "s": seff, "op": opr, "y": G.enc(yv),
+                 "f": {"k": "huber", "delta": 1.0, "sep": True} if case["loss"] == "huber" else {"k": "sqL2"}}
+        mk, mb = G.margin(t, x)
+        if 0.0 < mb < 1e-6:
+            continue
+        case["x"] = G.enc(x)
+        got = model.call("fn", n=n, x=G.cv(x), f=G.to_model(t, n))
+        X = snp.array(np.asarray(x if cplx else x.real, dtype=dt).reshape(shape))
+        ctx.case({k_: v for k_, v in case.items() if k_ not in ("x", "y", "h")}, ("linop_loss", opk, cplx, tuple(shape), case["loss"], case["c"] is not None, case.get("mode")))
+        ctx.count(f"linop_loss:{opk}:{case['loss']}")
+        if not common.close(float(f(X)), common.b2f(got["eval"]), TOLK):
+            ctx.disagree("linop_loss.eval", case, float(f(X)), common.b2f(got["eval"]), oracle=linop_loss_oracle)
+            continue
+        g = f.grad(X)
+        if list(np.shape(g)) != list(shape) or np.asarray(g).dtype != dt:
+            ctx.disagree("linop_loss.grad.shape", case, {"shape": list(np.shape(g)), "dtype": str(np.asarray(g).dtype)}, {"shape": list(shape), "dtype": str(np.dtype(dt))}, oracle=linop_loss_oracle)
+            continue
+        if not _cmp_vec(ctx, "linop_loss.grad", case, g, G.from_cv(got["grad"]), linop_loss_oracle):
+            continue
+        if case["loss"] == "sqL2":
+            goth = model.call("hess", n=n, m=m, s=f2b(seff), A=G.cmat(Am), w=[f2b(1.0)] * m, x=G.cv(x), y=G.cv(yv))
+            H = f.hessian
+            _cmp_vec(ctx, "linop_loss.hessian", case, H(X), G.from_cv(goth["apply"]), linop_loss_oracle)
 
 
 def stream_div_reject(ctx, model):
@@ -1758,7 +1882,7 @@ def correspond(ctx, model):
 
     common.setup_scico()
     warnings.filterwarnings("ignore", message="Casting complex values to real")
-    for stream in (run_corpus, stream_boundary, stream_l21, stream_tv, stream_setdist, stream_fn, stream_blocks, stream_single, stream_real_arg,
+    for stream in (run_corpus, stream_boundary, stream_l21, stream_tv, stream_setdist, stream_linop_loss, stream_fn, stream_blocks, stream_single, stream_real_arg,
                    stream_div_reject, stream_jac, stream_jac_mixed, stream_function, stream_hess, stream_heap, stream_heap_exhaustive, stream_autograd_api, stream_linadj2):
         _guard(ctx, model, stream)
 
@@ -2006,6 +2130,8 @@ def replay(ctx, model, case):
         r = linadj2_oracle(c)
     elif op.startswith("tv"):
         r = tv_oracle(c)
+    elif op.startswith("linop_loss"):
+        r = linop_loss_oracle(c)
     elif op.startswith("linadj"):
         r = linadj_oracle(c)
     elif op.startswith("jac"):
